@@ -1644,6 +1644,8 @@ def run_c07(mod, tier, seed):
         try:
             res = c07_one(mod, s)
         except Exception as e:
+            if tag == "startless" and isinstance(e, ValueError):
+                continue  # data that does not begin with a move is not a valid path: the library may reject it
             agg.add("path-construction-raises-%s" % type(e).__name__, {"s": s}, "a path", repr(e))
             continue
         n += 1
